@@ -470,8 +470,8 @@ pub fn fastq_any(rng: &Rng, max_recs: usize, max_noise: usize) -> (Vec<u8>, &'st
                 (long_line_truncated(rng), "long_line_truncated")
             } else if rng.chance(1, 2) {
                 // records of identical layout, one byte of a later record replaced by a structural byte
-                // (mostly tiny records; now and then lines of 1-2.6 KiB, or runs of 18-40 records)
-                let len = if rng.chance(1, 6) { rng.range(1024, 2600) } else { rng.range(1, 8) };
+                // (mostly tiny records; now and then lines of 1-9 KiB, or runs of 18-40 records)
+                let len = if rng.chance(1, 6) { *rng.pick(&[rng.range(1024, 2600), rng.range(1024, 2600), rng.range(4090, 4200), rng.range(4096, 9000)]) } else { rng.range(1, 8) };
                 let n = if len < 100 && rng.chance(1, 5) { rng.range(18, 40) } else { rng.range(2, max_recs.max(2)) };
                 let mut v = vec![];
                 for i in 0..n {
